@@ -96,6 +96,9 @@ def _residue(draw, resname, prefix):
         else:
             params = []
         vs = {"kind": kind, "cons": cons, "params": params, "name": f"{prefix}v"}
+    elif n == 1 and draw(st.integers(0, 1)) == 0:
+        # one bead and a site constructed from it alone (it sits on the bead): a residue without any bonded term
+        vs = {"kind": "n", "cons": [0], "params": [], "name": f"{prefix}v"}
     atoms = [{"name": nm, "type": draw(st.sampled_from(TYPES))} for nm in names]
     # the force constant plays no part in the geometry a template has to meet: 0 (an angle kept for bookkeeping) too
     return {"resname": resname, "atoms": atoms, "bonds": bonds, "angles": angles, "impropers": impropers, "vs": vs,
